@@ -145,6 +145,9 @@ def tableWork (g : Grammar) (n : Nat) : Nat :=
 /-- bound on the steps of `runM` started with an empty table on `e` at position 0 of an input of `n` characters -/
 def stepBound (g : Grammar) (e : PE) (n : Nat) : Nat := work e n + tableWork g n
 
+/-- Σ over the rules of the work of the body with no character left: the constant of the quadratic bound -/
+def grammarConst (g : Grammar) : Nat := (g.map fun r => work (ruleBody g r.1) 0).sum
+
 /-- nesting depth of `*`/`+` in an expression: `work e m` is a polynomial in `m` of this degree -/
 def starDepth : PE → Nat
   | .seq a b => max (starDepth a) (starDepth b)
@@ -159,24 +162,25 @@ def starDepth : PE → Nat
 
 /-! ### the association-list table (kernel-evaluable) -/
 
-abbrev ListMemo := List ((String × Nat) × Result)
+/-- keyed (position, rule name): most mismatches are decided by comparing two numbers -/
+abbrev ListMemo := List ((Nat × String) × Result)
 
 instance : MemoTable ListMemo where
   empty := []
-  find? t x q := t.lookup (x, q)
-  insert t x q v := ((x, q), v) :: t
+  find? t x q := t.lookup (q, x)
+  insert t x q v := ((q, x), v) :: t
   find?_empty _ _ := rfl
   find?_insert t x q v y p := by
     simp only [List.lookup_cons]
     by_cases h : x = y ∧ q = p
     · obtain ⟨rfl, rfl⟩ := h; simp
     · rw [if_neg h]
-      have : ((y, p) == (x, q)) = false := by
+      have : ((p, y) == (q, x)) = false := by
         apply Bool.eq_false_iff.mpr
         intro hb
         have := eq_of_beq hb
         simp only [Prod.mk.injEq] at this
-        exact h ⟨this.1.symm, this.2.symm⟩
+        exact h ⟨this.2.symm, this.1.symm⟩
       rw [this]
 
 /-! ### the plain interpreter with a step counter (comparison only) -/
